@@ -35,7 +35,11 @@ def run_partition(args):
                         on_state=oracle.on_state, part=part, roots=(tuple(root),), first=first)
     for k, v in world.frames.items():
         if frame_digest(v) != digests_before[k]:
-            raise RuntimeError(f"shared input frame {k} of world {wname} was modified during exploration (harness isolation broken)")
+            # the harness never writes to an input frame, so the library did (e.g. through list objects shared between a status row and the data):
+            # whatever else was observed in this partition stands, and the modification itself is reported
+            pid = oracle_mod.rsplit(".", 1)[-1].upper()
+            part.violation(f"{pid}|input-frame-modified|{k}", "an operation wrote through to the market data frame it was given (the visible state and the input share objects)",
+                           {"world": wname, "history": list(root)}, {"frame": k})
     oracle.finish()
     r = part.result()
     r["stats"] = stats
